@@ -3,14 +3,21 @@ C16 — JS-string and attribute atoms are exactly string characters / attributes
 
 Proved on the Lean models of the two splitters (which agree with the real `split_parts` on every
 string up to length 5/6 over adversarial alphabets and on grammar-directed streams, see the
-correspondence): both partition their input (nothing lost, nothing invented), flags are aligned,
-attribute parts are non-empty, the attribute splitter never raises.  The exactness clauses
-(reducible atoms = the characters/escapes of terminated strings; every reducible attribute atom is
-one complete attribute inside a tag) are decided by the monitor against an independent reference
-tokenizer / structural specification — not proved (DESIGN.md §4 C16, partial).
+correspondence):
+* both partition their input (nothing lost, nothing invented), flags are aligned, parts are
+  non-empty, the attribute splitter never raises (`C16_js_partition`, `C16_attrs_partition`);
+* `C16_js_tokens`: every reducible JS atom is ONE token — a character, or one complete escape
+  `\uHHHH`, `\xHH`, `\u{H+}`, a backslash pair — never a fragment of an escape;
+* `C16_attrs_shape`: every reducible attribute atom is one complete attribute (leading whitespace,
+  name, optional `=value` including its closing quote).
+Not proved (monitor against an independent reference tokenizer, exhaustive on short strings): that
+the reducible JS tokens are exactly those inside properly TERMINATED strings (the back-tracking on
+an unterminated quote), and that attribute atoms lie inside a tag (DESIGN.md §4 C16, partial).
 -/
 import LithiumProofs.SplitJs
+import LithiumProofs.SplitJsNe
 import LithiumProofs.SplitAttrs
+import LithiumProofs.SplitAttrsShape
 
 namespace Js
 
@@ -76,6 +83,15 @@ theorem C16_js_partition (d : Bytes) (s : Load.Split) (h : splitJs d = .ok s) :
     s.header ++ s.parts.flatten ++ s.footer = d ∧ s.parts.length = s.reducible.length :=
   splitJs_cat d s h
 
+/-- JS-string mode: every reducible atom is ONE TOKEN of the escape grammar — an ordinary character,
+`\uHHHH`, `\xHH`, `\u{H...}`, or a backslash pair — never a fragment of an escape sequence (the
+last disjunct of `IsTok`, a lone backslash, can only be the very last byte of the data).  The index
+list of the tokenizer points at such tokens through the back-tracking on unterminated strings, the
+header/footer cut and the gap merge (`scan_sat`, `outer_sat`, `mergeLoop_sat`). -/
+theorem C16_js_tokens (d : Bytes) (s : Load.Split) (h : splitJs d = .ok s) :
+    ∀ x ∈ s.parts.zip s.reducible, x.2 = true → IsTok x.1 :=
+  splitJs_tokens d s h
+
 end Js
 
 namespace Attrs
@@ -95,6 +111,15 @@ theorem C16_attrs_partition (d : Bytes) :
   refine ⟨s, hs, ?_, h2, h3, hhf.1, hhf.2⟩
   rw [hhf.1, hhf.2] at h1
   simpa using h1
+
+/-- attribute mode: every reducible atom is ONE COMPLETE ATTRIBUTE — optional leading whitespace, a
+name `[A-Za-z][A-Za-z0-9:-]*`, and then nothing (value-less), or `=` + a quoted value up to and
+including the first matching closing quote, or `=` + an unquoted value that contains no whitespace
+and no `>` (and does not begin with a quote).  Tag names, the closing `>`, and text that does not
+parse as an attribute are never flagged reducible (they are pushed with the flag `false` only). -/
+theorem C16_attrs_shape (d : Bytes) (s : Load.Split) (h : splitAttrs d = .ok s) :
+    ∀ x ∈ s.parts.zip s.reducible, x.2 = true → IsAttr x.1 :=
+  splitAttrs_shape d s h
 
 /-- non-vacuity: `<a b="c d" e>` -/
 example :
